@@ -181,7 +181,14 @@ impl<'a> G<'a> {
     fn destroy_dir(&mut self, d: &(String, usize)) {
         let l = self.lvl();
         let k = self.knd();
-        let obs = self.emit(format!("destroy {} {} {}", l, k, d.0));
+        // a dynamically typed direct key handed to ANOTHER archetype's archetype-level destroy
+        let at = if k == "y" && l == "a" && self.rng.chance(25) { format!(" @{}", self.rng.below(NARCH)) } else { String::new() };
+        let obs = self.emit(format!("destroy {} {} {}{}", l, k, d.0, at));
+        if !at.is_empty() && obs.starts_with("some") {
+            for a in 0..NARCH {
+                self.resync_live(a);
+            }
+        }
         if obs.starts_with("some") {
             // we do not know which entity var died: resync liveness by probing lazily (the
             // live set is only a guess used to bias choices)
@@ -365,10 +372,12 @@ impl<'a> G<'a> {
                 for v in &vars {
                     self.emit(format!("probe {}", v));
                 }
+                self.emit("events".to_string());
                 self.emit(format!("switch {}", nw));
                 for v in &vars {
                     self.emit(format!("probe {}", v));
                 }
+                self.emit("events".to_string());
                 self.emit(format!("switch {}", c));
             }
         }
